@@ -10,11 +10,21 @@ Definition Hh := Hc.
 Lemma Hh_len : forall x, length (Hh x) = 32%nat.
 Proof. exact Hc_len. Qed.
 
-Lemma reach_run c nv s ops s' : reach Hh c nv s -> run Hh s ops = Ok s' -> reach Hh c nv s'.
+(* running operations from a reachable state: every operation is performed by a `ready` store *)
+Fixpoint run_chk (s : st) (ops : list op) : option st :=
+  match ops with
+  | [] => Some s
+  | o :: r =>
+      if asize s =? precommitted s then
+        match step Hh s o with Ok s1 => run_chk s1 r | _ => None end
+      else None
+  end.
+Lemma reach_run c nv s ops s' : reach Hh c nv s -> run_chk s ops = Some s' -> reach Hh c nv s'.
 Proof.
-  revert s; induction ops as [|o ops IH]; intros s R E; cbn [run] in E.
+  revert s; induction ops as [|o ops IH]; intros s R E; cbn [run_chk] in E.
   - congruence.
-  - destruct (step Hh s o) as [s1| |] eqn:E1; cbn [bind] in E; try discriminate.
+  - destruct (N.eqb_spec (asize s) (precommitted s)) as [Rd|]; [|discriminate].
+    destruct (step Hh s o) as [s1| |] eqn:E1; try discriminate.
     eapply IH; [|exact E]. eapply r_step; eauto.
 Qed.
 
@@ -71,7 +81,7 @@ Definition opsA := [OVal 0 [1; 2; 3]; OPre 0 [9; 9]; OFlush FTx 1000].
 Definition sA1 := get (run Hh sA0 opsA) sA0.
 Definition imA := img_tx sA1.
 Definition sA2 := get (recover Hh cfA imA) sA0.
-Lemma runA : run Hh sA0 opsA = Ok sA1. Proof. vm_compute. reflexivity. Qed.
+Lemma runA : run_chk sA0 opsA = Some sA1. Proof. vm_compute. reflexivity. Qed.
 Lemma recA : recover_upto Hh (N.to_nat (len (i_txl imA))) cfA imA = Ok sA2. Proof. vm_compute. reflexivity. Qed.
 Lemma crashA : crash sA1 imA.
 Proof. exact (crash_tx sA1). Qed.
@@ -86,7 +96,8 @@ Proof.
   - vm_compute. repeat split; congruence.
 Qed.
 
-(* ============ B: the hash tree keeps a leaf of a LOST transaction and is taken as up to date ============ *)
+(* ============ B (FIXED by b260503; history: the code before it, c_ahtsync = false): the hash tree keeps a
+   leaf of a LOST transaction and is taken as up to date ============ *)
 Definition cfB := mkCfg 2 4 false 0 false.
 Definition sB0 := init Hh cfB 1.
 (* two transactions are precommitted: the tree reaches its own sync threshold (2) and fsyncs its
@@ -103,9 +114,9 @@ Definition sB3 := get (run Hh sB2 opsB2) sB0.
 Definition imB2 := img_dur sB3.
 Definition sB4 := get (recover Hh cfB imB2) sB0.
 
-Lemma runB1 : run Hh sB0 opsB1 = Ok sB1. Proof. vm_compute. reflexivity. Qed.
+Lemma runB1 : run_chk sB0 opsB1 = Some sB1. Proof. vm_compute. reflexivity. Qed.
 Lemma recB1 : recover_upto Hh (N.to_nat (len (i_txl imB1))) cfB imB1 = Ok sB2. Proof. vm_compute. reflexivity. Qed.
-Lemma runB2 : run Hh sB2 opsB2 = Ok sB3. Proof. vm_compute. reflexivity. Qed.
+Lemma runB2 : run_chk sB2 opsB2 = Some sB3. Proof. vm_compute. reflexivity. Qed.
 Lemma recB2 : recover_upto Hh (N.to_nat (len (i_txl imB2))) cfB imB2 = Ok sB4. Proof. vm_compute. reflexivity. Qed.
 Lemma crashB1 : crash sB1 imB1.
 Proof. exact (crash_dur sB1). Qed.
@@ -133,8 +144,8 @@ Proof.
   - vm_compute. repeat split; congruence.
 Qed.
 
-(* the SAME trace and crash images on the code with the proposed repair (the tree is fsynced by
-   sync() before the commit entries are written): the recovered tree matches *)
+(* the SAME trace and crash images on the code since b260503 (the tree is fsynced by sync() before the
+   commit entries are written): the recovered tree matches *)
 Definition cfB' := mkCfg 2 4 false 0 true.
 Definition sB1' := get (run Hh (init Hh cfB' 1) opsB1) (init Hh cfB' 1).
 Definition sB2' := get (recover Hh cfB' (img_dur sB1')) (init Hh cfB' 1).
@@ -155,7 +166,7 @@ Definition sC0 := init Hh cfC 1.
 Definition opsC := [OVal 0 [1]; OPre 0 [7]; OSyncStart; OSyncV 0; OSyncTx; OFlush FCm 20].
 Definition sC1 := get (run Hh sC0 opsC) sC0.
 Definition imC := img_txcm sC1.
-Lemma runC : run Hh sC0 opsC = Ok sC1. Proof. vm_compute. reflexivity. Qed.
+Lemma runC : run_chk sC0 opsC = Some sC1. Proof. vm_compute. reflexivity. Qed.
 Lemma crashC : crash sC1 imC.
 Proof. exact (crash_txcm sC1). Qed.
 
